@@ -129,7 +129,7 @@ var c14Hist = Check[c14Case]{
 
 type c14ConcCase struct {
 	D       DumpM
-	Workers [][]int // per goroutine: ops 0..3 Aggregate(level) on the shared snapshot, 4 Aggregated.ToHTML, 5 Snapshot.ToHTML, 6 scan with the shared Opts, 7 yield
+	Workers [][]int // per goroutine: ops 0..3 Aggregate(level) on the shared snapshot, 4 Aggregated.ToHTML, 5 Snapshot.ToHTML, 6 scan with the shared Opts, 7 yield, 8 Args.String() of every call
 	Procs   int
 }
 
@@ -206,6 +206,15 @@ func c14ConcOracle(c c14ConcCase) error {
 						errs[w] = fmt.Errorf("worker %d: concurrent scan differs from the sequential one", w)
 						return
 					}
+				case op == 8:
+					// the text building block of every renderer: Signature/Args/Arg String()
+					for _, g := range snap.Goroutines {
+						_ = g.SleepString()
+						for ci := range g.Stack.Calls {
+							_ = g.Stack.Calls[ci].Args.String()
+							_ = g.Stack.Calls[ci].Func.String()
+						}
+					}
 				default:
 					runtime.Gosched()
 				}
@@ -235,13 +244,19 @@ var c14Conc = Check[c14ConcCase]{
 				if oneIn(t, 4, "fixtureFrame") {
 					f := &d.Gs[gi].Frames[fi]
 					f.Pkg, f.Name, f.File, f.Line = "main", "F1", "@FIX@/main.go", 6
+					// enough words for several typed parameters, sometimes with the "..." marker
+					f.Inlined = false
+					f.Args = ArgListM{Dots: rapid.Bool().Draw(t, "fixDots")}
+					for k, nw := 0, rapid.IntRange(1, 9).Draw(t, "fixWords"); k < nw; k++ {
+						f.Args.Items = append(f.Args.Items, ArgM{Val: uint64(0xc000010000 + k*8)})
+					}
 				}
 			}
 		}
 		nw := rapid.IntRange(2, 16).Draw(t, "workers")
 		c := c14ConcCase{D: d, Procs: rapid.SampledFrom([]int{1, 2, 16}).Draw(t, "procs")}
 		for w := 0; w < nw; w++ {
-			c.Workers = append(c.Workers, rapid.SliceOfN(rapid.IntRange(0, 7), 1, 8).Draw(t, "ops"))
+			c.Workers = append(c.Workers, rapid.SliceOfN(rapid.IntRange(0, 8), 1, 8).Draw(t, "ops"))
 		}
 		return c
 	},
